@@ -25,6 +25,10 @@
 #ifndef C18_KIND
 #define C18_KIND 0
 #endif
+//   -DC18_PART=1 only the writing algorithms (copy fill transform generate iota swap_ranges), =2 the others
+#ifndef C18_PART
+#define C18_PART 0
+#endif
 
 using ll = long long;
 constexpr ll P = 1000003;
@@ -82,14 +86,14 @@ struct Op1 {  // unary, by-value call counter
   ll a, b, k = 0;
   ll operator()(const ll x) {
     logcall(std::to_string(x));
-    return a * x + b + (k++);
+    return (a * x + b + (k++)) % P;
   }
 };
 struct Op2 {
   ll a, b, k = 0;
   ll operator()(const ll x, const ll y) {
     logcall(s2(x, y));
-    return a * x - b * y + (k++);
+    return (a * x - b * y + (k++)) % P;
   }
 };
 struct AccOp {
@@ -176,55 +180,98 @@ std::string run(const bool impl_, const std::string& algo, const unsigned N, con
 #endif
   with_N(N, [&](auto n) {
     constexpr unsigned K = decltype(n)::value;
+#if C18_PART == 0 || C18_PART == 1
     if (algo == "copy") {
       const It r = impl ? It(copy<K>::exe(at(0), at(1))) : std::copy(at(0), adv(at(0), K), at(1));
       out = "ret " + pos(r) + showmem(m);
-    } else if (algo == "fill") {
+    }
+#endif
+#if C18_PART == 0 || C18_PART == 1
+    if (algo == "fill") {
       if (impl) {
         fill<K>::exe(at(0), a.at(1));
       } else {
         std::fill(at(0), adv(at(0), K), a.at(1));
       }
       out = "ok" + showmem(m);
-    } else if (algo == "tr1") {
+    }
+#endif
+#if C18_PART == 0 || C18_PART == 1
+    if (algo == "tr1") {
       const Op1 op{a.at(2), a.at(3)};
       const It r = impl ? transform<K>::exe(at(0), at(1), op) : std::transform(at(0), adv(at(0), K), at(1), op);
       out = "ret " + pos(r) + showlog() + showmem(m);
-    } else if (algo == "tr2") {
+    }
+#endif
+#if C18_PART == 0 || C18_PART == 1
+    if (algo == "tr2") {
       const Op2 op{a.at(3), a.at(4)};
       const It r = impl ? transform<K>::exe(at(0), at(1), at(2), op)
                         : std::transform(at(0), adv(at(0), K), at(1), at(2), op);
       out = "ret " + pos(r) + showlog() + showmem(m);
-    } else if (algo == "acc") {
+    }
+#endif
+#if C18_PART == 0 || C18_PART == 2
+    if (algo == "acc") {
       const ll r = impl ? accumulate<K>::exe(at(0), a.at(1)) : std::accumulate(at(0), adv(at(0), K), a.at(1));
       out = "val " + std::to_string(r);
-    } else if (algo == "accop") {
+    }
+#endif
+#if C18_PART == 0 || C18_PART == 2
+    if (algo == "accs") {
+      // a value type whose `+` is not commutative: std::string (cells -> one letter each)
+      std::vector<std::string> s;
+      for (const ll v : m) s.push_back(std::string(1, static_cast<char>('a' + ((v % 26) + 26) % 26)));
+      const auto sb = s.begin() + a.at(0);
+      out = "val " + (impl ? accumulate<K>::exe(sb, std::string("I")) : std::accumulate(sb, sb + K, std::string("I")));
+    }
+#endif
+#if C18_PART == 0 || C18_PART == 2
+    if (algo == "accop") {
       const AccOp op{a.at(2), a.at(3)};
       const ll r =
           impl ? accumulate<K>::exe(at(0), a.at(1), op) : std::accumulate(at(0), adv(at(0), K), a.at(1), op);
       out = "val " + std::to_string(r) + showlog();
-    } else if (algo == "ip") {
+    }
+#endif
+#if C18_PART == 0 || C18_PART == 2
+    if (algo == "ip") {
       const ll r = impl ? inner_product<K>::exe(at(0), at(1), a.at(2))
                         : std::inner_product(at(0), adv(at(0), K), at(1), a.at(2));
       out = "val " + std::to_string(r);
-    } else if (algo == "ipop") {
+    }
+#endif
+#if C18_PART == 0 || C18_PART == 2
+    if (algo == "ipop") {
       const IpAdd o1{a.at(3), a.at(4)};
       const IpMul o2{};
       const ll r = impl ? inner_product<K>::exe(at(0), at(1), a.at(2), o1, o2)
                         : std::inner_product(at(0), adv(at(0), K), at(1), a.at(2), o1, o2);
       out = "val " + std::to_string(r) + showlog();
-    } else if (algo == "ip0") {
+    }
+#endif
+#if C18_PART == 0 || C18_PART == 2
+    if (algo == "ip0") {
       const ll r = impl ? inner_product<K>::template exe<ll>(at(0), at(1))
                         : std::inner_product(at(0), adv(at(0), K), at(1), ll{});
       out = "val " + std::to_string(r);
-    } else if (algo == "eq") {
+    }
+#endif
+#if C18_PART == 0 || C18_PART == 2
+    if (algo == "eq") {
       const bool r = impl ? equal<K>::exe(at(0), at(1)) : std::equal(at(0), adv(at(0), K), at(1));
       out = std::string("val ") + (r ? "1" : "0");
-    } else if (algo == "eqp") {
+    }
+#endif
+#if C18_PART == 0 || C18_PART == 2
+    if (algo == "eqp") {
       const Near pr{a.at(2)};
       const bool r = impl ? equal<K>::exe(at(0), at(1), pr) : std::equal(at(0), adv(at(0), K), at(1), pr);
       out = std::string("val ") + (r ? "1" : "0") + showlog();
-    } else if (algo == "foreach") {
+    }
+#endif
+#if C18_PART == 0 || C18_PART == 2
+    if (algo == "foreach") {
       Each f;
       ll h;
       if (impl) {
@@ -234,7 +281,10 @@ std::string run(const bool impl_, const std::string& algo, const unsigned N, con
         h = std::for_each(at(0), adv(at(0), K), f).h;
       }
       out = "st " + std::to_string(h) + showlog();
-    } else if (algo == "gen") {
+    }
+#endif
+#if C18_PART == 0 || C18_PART == 1
+    if (algo == "gen") {
       const Gen g{a.at(1)};
       if (impl) {
         generate<K>::exe(at(0), g);
@@ -242,29 +292,48 @@ std::string run(const bool impl_, const std::string& algo, const unsigned N, con
         std::generate(at(0), adv(at(0), K), g);
       }
       out = "ok" + showmem(m);
-    } else if (algo == "iota") {
+    }
+#endif
+#if C18_PART == 0 || C18_PART == 1
+    if (algo == "iota") {
       if (impl) {
         iota<K>::exe(at(0), a.at(1));
       } else {
         std::iota(at(0), adv(at(0), K), a.at(1));
       }
       out = "ok" + showmem(m);
-    } else if (algo == "min") {
+    }
+#endif
+#if C18_PART == 0 || C18_PART == 2
+    if (algo == "min") {
       const It r = impl ? min_element<K>::exe(at(0)) : std::min_element(at(0), adv(at(0), K));
       out = "ret " + pos(r);
-    } else if (algo == "max") {
+    }
+#endif
+#if C18_PART == 0 || C18_PART == 2
+    if (algo == "max") {
       const It r = impl ? max_element<K>::exe(at(0)) : std::max_element(at(0), adv(at(0), K));
       out = "ret " + pos(r);
-    } else if (algo == "minc") {
+    }
+#endif
+#if C18_PART == 0 || C18_PART == 2
+    if (algo == "minc") {
       const It r = impl ? min_element<K>::exe(at(0), KeyLess{}) : std::min_element(at(0), adv(at(0), K), KeyLess{});
       out = "ret " + pos(r) + showlog();
-    } else if (algo == "maxc") {
+    }
+#endif
+#if C18_PART == 0 || C18_PART == 2
+    if (algo == "maxc") {
       const It r = impl ? max_element<K>::exe(at(0), KeyLess{}) : std::max_element(at(0), adv(at(0), K), KeyLess{});
       out = "ret " + pos(r) + showlog();
-    } else if (algo == "swap") {
+    }
+#endif
+#if C18_PART == 0 || C18_PART == 1
+    if (algo == "swap") {
       const It r = impl ? swap_ranges<K>::exe(at(0), at(1)) : std::swap_ranges(at(0), adv(at(0), K), at(1));
       out = "ret " + pos(r) + showmem(m);
     }
+#endif
   });
   return out;
 }
